@@ -59,3 +59,6 @@ def run(ctx):
     ctx.floor("S2", 3)
     ctx.floor("S3", 4)
     ctx.floor("S4", 8)
+    from ..engines import forestrules as FE
+    FE.e13_reverse_switch_read_live(ctx)
+    ctx.floor("E13", 2)
